@@ -35,6 +35,7 @@ class GenCfg:
         self.p_empty = 0.05     # zero-length outputs
         self.p_raise_builtin = 0.3   # user exceptions of builtin classes (FileNotFoundError, KeyError, ...)
         self.p_qprop = 0.05          # queries whose documented OSError leaves the function uncaught
+        self.p_inner = 0.05     # an independent build inside a root function
         self.p_rename = 0.06    # function names from the library's own vocabulary
         self.__dict__.update(kw)
 
@@ -158,6 +159,10 @@ def gen_program(rng, cfg):
             if cfg.p_root_raise and rng.random() < cfg.p_root_raise:
                 rb.insert(rng.randint(0, len(rb)), ['raise', 'root'])
             roots.append(rb)
+        for rb in roots:
+            if rng.random() < cfg.p_inner:
+                # an independent build (own cache file, own directory) made by user code in the middle
+                rb.insert(rng.randint(0, len(rb)), ['x', 'inner', rng.choice(['ok', 'raise'])])
         program = {'funcs': funcs, 'roots': roots}
         if all(targets_ok(program, rb) for rb in roots):
             if rng.random() < cfg.p_rename:
